@@ -1,7 +1,7 @@
 from vpkg.core import Unit
 from vpkg import csrc
 _t = csrc.Tree()
-_ss = [f.name for f in _t.by_file["/repo/src/state/bidib_state_setter.c"]]
+_ss = [f.name for f in _t.by_file[csrc.REPO + "/src/state/bidib_state_setter.c"]]
 def _u(name, define, keep, **kw):
     return Unit(name=name, src="units/C15/nodes.c", defines=[define], functions=keep, props=["C15"], no_dfcc=True,
                 remove_bodies=[f for f in _ss if f not in keep], extra_flags=["--nondet-static", "--unwind", "5"], covers=1, min_obligations=4,
@@ -12,7 +12,7 @@ UNITS = [
     _u("C15.node_lost", "VP_H_NODE_LOST", ["bidib_state_node_lost", "bidib_state_is_subnode"], kind="bounded", bound="3 configured boards with arbitrary addresses / class bits / connectivity (loop unwound completely for that size)"),
     Unit(name="C15.query_nodetab", src="units/C15/nodetab.c", functions=["bidib_state_query_nodetab"], props=["C15", "C20"], no_dfcc=True,
          kind="bounded", bound="node table of <= 2 rows, 3 configured boards, arbitrary answers incl. a table change at any row; loops unwound completely for that size",
-         remove_bodies=[f.name for f in _t.by_file["/repo/src/state/bidib_state.c"] if f.name != "bidib_state_query_nodetab"],
+         remove_bodies=[f.name for f in _t.by_file[csrc.REPO + "/src/state/bidib_state.c"] if f.name != "bidib_state_query_nodetab"],
          extra_flags=["--nondet-static", "--unwind", "9"], covers=2, min_obligations=6, timeout=600,
          stubbed_contracts=["bidib_read_intern_message (scripted arbitrary answers)", "bidib_state_get_board_ref_by_uniqueid", "bidib_send_nodetab_getall/getnext", "bidib_flush"]),
 ]
